@@ -43,9 +43,14 @@ def run(idx: Index, rep: Report, tier: str) -> None:
     rule2 = "C35.2 T1 hidden-state-satisfies-constraints"
     g = idx.func(ENV + "._randomly_set_full_initial_state")
     rep.note_function(g.qualname)
+    # role: the constraint list is what the conjunction handed to all_smt is built from
+    ch0 = [c for c in walk_no_nested(g.node) if isinstance(c, ast.Call) and call_name(c) == "all_smt" and c.args and isinstance(c.args[0], ast.Call) and call_name(c.args[0]) == "And" and c.args[0].args and isinstance(c.args[0].args[0], ast.Name)]
+    if not ch0:
+        raise AnalysisError("anchor vanished: all_smt(And(<constraints>), …) in _randomly_set_full_initial_state")
+    clist = ch0[0].args[0].args[0].id
     for attr, ctor in (("oneof_constraints", "ExactlyOne"), ("or_constraints", "Or")):
         loops = [l for l in walk_no_nested(g.node) if isinstance(l, ast.For) and norm(l.iter) == f"problem.{attr}"]
-        ok = bool(loops) and any(isinstance(c, ast.Call) and call_name(c) == "append" and norm(c.func.value) == "constraints" and isinstance(c.args[0], ast.Call) and call_name(c.args[0]) == ctor for l in loops for c in ast.walk(l))
+        ok = bool(loops) and any(isinstance(c, ast.Call) and call_name(c) == "append" and norm(c.func.value) == clist and isinstance(c.args[0], ast.Call) and call_name(c.args[0]) == ctor for l in loops for c in ast.walk(l))
         rep.check(ok, rule2, f"every {attr[:-12]} constraint enters the formula as {ctor}", g.loc(loops[0]) if loops else g.loc(), construct=f"for c in problem.{attr}: constraints.append({ctor}(args))", detail="" if ok else f"the drawn hidden state need not satisfy the {attr}", function=g.qualname)
         # negated literals keep their polarity
         for l in loops:
@@ -53,7 +58,7 @@ def run(idx: Index, rep: Report, tier: str) -> None:
             ok2 = bool(ifs) and all(any(isinstance(c, ast.Call) and call_name(c) == "Not" for s in i.body for c in ast.walk(s)) and not any(isinstance(c, ast.Call) and call_name(c) == "Not" for s in i.orelse for c in ast.walk(s)) for i in ifs)
             rep.check(ok2, rule2, f"{attr}: negated literals are translated with Not, positive ones without", g.loc(l), construct="if x.is_not(): Not(sym[x.arg(0)]) else: sym[x]", function=g.qualname)
     ch = [c for c in walk_no_nested(g.node) if isinstance(c, ast.Call) and call_name(c) == "all_smt"]
-    ok = bool(ch) and all(isinstance(c.args[0], ast.Call) and call_name(c.args[0]) == "And" and norm(c.args[0].args[0]) == "constraints" for c in ch)
+    ok = bool(ch) and all(isinstance(c.args[0], ast.Call) and call_name(c.args[0]) == "And" and norm(c.args[0].args[0]) == clist for c in ch)
     rep.check(ok, rule2, "the state is drawn among the models of the conjunction of all constraints", g.loc(ch[0]) if ch else g.loc(), construct=norm(ch[0])[:90] if ch else "", function=g.qualname)
     sets = [c for c in walk_no_nested(g.node) if isinstance(c, ast.Call) and call_name(c) == "set_initial_value" and "_deterministic_problem" in norm(c.func.value)]
     rep.check(bool(sets), rule2, "every drawn value is written to the deterministic problem", g.loc(sets[0]) if sets else g.loc(), construct=norm(sets[0]) if sets else "", function=g.qualname)
@@ -92,7 +97,8 @@ def run(idx: Index, rep: Report, tier: str) -> None:
     of = [l for l in cfg.nodes if l.kind == "for" and "observed_fluents" in norm(l.owner.iter)]
     rep.check(bool(of), rule3, "observations range over the sensing action's observed fluents", ap.loc(of[0].owner) if of else ap.loc(), construct=norm(of[0].owner.iter) if of else "", function=ap.qualname)
     sub = [c for _, c in cfg_nodes_with_call(cfg, "substitute")]
-    rep.check(bool(sub) and all(norm(c.args[0]) == "subs" for c in sub), rule3, "observed fluents are grounded with the action's actual parameters", ap.loc(sub[0]) if sub else ap.loc(), construct=norm(sub[0]) if sub else "", function=ap.qualname)
+    maps = {norm(a.targets[0] if isinstance(a, ast.Assign) else a.target) for a in walk_no_nested(ap.node) if isinstance(a, (ast.Assign, ast.AnnAssign)) and a.value is not None and any(isinstance(x, ast.Attribute) and x.attr == "actual_parameters" for x in ast.walk(a.value)) and any(isinstance(x, ast.Call) and call_name(x) == "zip" for x in ast.walk(a.value))}
+    rep.check(bool(sub) and all(c.args and norm(c.args[0]) in maps for c in sub), rule3, "observed fluents are grounded with the action's actual parameters", ap.loc(sub[0]) if sub else ap.loc(), construct=norm(sub[0]) if sub else "", function=ap.qualname)
     gr = idx.func(ENV + ".is_goal_reached")
     ok = any(isinstance(c, ast.Call) and call_name(c) == "is_goal" and norm(c.args[0]) == "self._state" for c in walk_no_nested(gr.node))
     rep.check(ok, rule3, "goal test delegates to the simulator on the current state", gr.loc(), construct="self._simulator.is_goal(self._state)", function=gr.qualname)
